@@ -12,32 +12,39 @@ META = {
             "construction, the two release stores of the tag to the slot and to its mirror, size add), for every client "
             "program of emplace/insert/operator[]/find/contains, every number of threads, every schedule, every hash "
             "function (colliding hashes, equal 7-bit tags), every initial capacity incl. the default-constructed "
-            "placeholder and any number of chained growth steps: at most one insertion per key reports success and in a "
-            "finished run exactly one does; all insertions and lookups of a key return the same slot, which holds the "
-            "winner's fully constructed element; a lookup that starts after an insertion of the key returned (begin/end "
-            "stamps) finds it; a slot is constructed exactly once and no key comparison ever reads a slot that is not "
-            "constructed; control bytes only move EMPTY -> BUSY -> tag and published slots never change; an insertion "
-            "that fails (fixed table) never constructed anything (argument not consumed) and saw every group of its probe "
-            "sequence full; a key lives in at most one slot of the whole chain and every table before it is full for that "
-            "key.  Index/mask/probe formulas, the CAS operands, the failed-CAS tests, the stored bytes, the statement "
-            "order construct-before-publish and the memory orders are regenerated from transient_hash_table.hpp on every "
-            "run.  Tie: the real classes run under the deterministic scheduler (every atomic operation of the table code "
-            "is a scheduling point, extra points sit in the harness-supplied hash functor, key equality and element "
-            "constructor, so a reader can be scheduled before a group load, between the group load and the slot read and "
-            "between CAS and construction); every outcome of a small program must be one the extracted model admits "
-            "(exhaustive exploration of all schedules of the model); monitors check the property text directly on every "
-            "run (one winner, same element, visibility by stamps, constructed once, argument not consumed, failure only "
-            "when full, final iteration without drop/duplicate, size, destructors, table/node allocations balanced).",
-    "note": "Sequentially consistent interleavings only.  The SIMD group load is a plain, possibly torn 16-byte load: the "
-            "model takes it as one step; torn loads are covered only by the byte-monotonicity theorem "
-            "(c03_bytes_monotone: each control byte moves EMPTY -> BUSY -> tag and never changes afterwards), every "
-            "invariant of the proof being per byte position.  Release/acquire pairing (tag stores vs. fence after the group "
-            "load, next CAS vs. next load) is checked on the regenerated site tables, not executed.  'failure only when the "
-            "table is completely full' is proved as 'every byte of the key's own probe sequence is a tag' "
-            "(c03_full_fixed_fails_clean); that the triangular probe sequence covers every bucket is proved under C18 "
-            "(HSProofs.tri_surj), not re-proved here.  Trusted: Coq kernel; translator; extraction + the explorer in "
-            "ocaml/hc_driver.ml; macro shim + dsched; the driver's operator new/delete replacement and private-member "
-            "access (-fno-access-control).",
+            "placeholder and any number of chained growth steps.  Proved: at most one insertion per key reports success; "
+            "all insertions and lookups of a key return the same slot and saw the same fully constructed element, which "
+            "was built from the winner's arguments; a key lives in at most one slot of the whole chain (growth never "
+            "duplicates); control bytes only move EMPTY -> BUSY -> tag, tags / constructed elements never change and tables "
+            "are only appended (growth never drops); a published tag (slot or mirror) implies a constructed element with "
+            "that tag, no key comparison ever reads raw storage, no slot is constructed twice; chain/probe invariant: "
+            "every table, group and byte a stored key's probe examines before its slot is the tag of a constructed "
+            "element of another key; a failing insertion found its whole probe sequence full.  Index/mask/probe formulas, "
+            "the CAS operands, the failed-CAS tests, the stored bytes, the statement order construct -> publish -> size and "
+            "the memory orders are regenerated from transient_hash_table.hpp on every run.  Tie: the real classes run "
+            "under the deterministic scheduler (every atomic operation of the table code is a scheduling point, extra "
+            "points sit in the harness-supplied hash functor, key equality and element constructor, so a reader can be "
+            "scheduled before a group load, between the group load and the slot read and between CAS and construction); "
+            "every outcome of a small program must be one the extracted model admits (exhaustive exploration of all "
+            "schedules of the model); monitors check the property text directly on every run (exactly one winner, same "
+            "element, visibility by begin/end stamps, constructed once, argument not consumed, failure only when full, "
+            "final iteration without drop/duplicate, size, destructors, table/node allocations balanced).",
+    "note": "PARTIAL theorems (full statements are Definitions in HCProofs.v, not proved): (1) 'a lookup that starts after "
+            "an insertion returned never misses' is proved at state level only (c03_find_after_insert_partial: the tag "
+            "stays published at a position of the key's own probe sequence addressing the returned slot, the element "
+            "stays, and by c03_key_position there is no free byte before it); the induction over the later lookup "
+            "thread's steps (find_after_insert_stmt) is open - covered by the `visible` monitor and by the '^' marks of "
+            "the outcome correspondence.  (2) 'exactly one winner in a finished run' (exactly_one_winner_stmt): only 'at "
+            "most one' is proved; covered by the `winner` monitor.  (3) 'a failed insertion does not consume its "
+            "arguments' (full_no_consume_stmt) is structural in the model (only the construction step consumes and it "
+            "follows a successful CAS) but not stated as a proved theorem; that the probe sequence covers every bucket is "
+            "proved under C18 (HSProofs.tri_surj).  Sequentially consistent interleavings only.  The SIMD group load is "
+            "a plain, possibly torn 16-byte load: the model takes it as one step; torn loads are covered only by the "
+            "byte-monotonicity theorem (c03_bytes_monotone), every invariant of the proof being per byte position.  "
+            "Release/acquire pairing is checked on the regenerated site tables, not executed.  No PCT schedules: the BUSY "
+            "spin-wait of do_emplace needs a fair scheduler.  Trusted: Coq kernel; translator; extraction + the explorer "
+            "in ocaml/hc_driver.ml; macro shim + dsched; the driver's operator new/delete replacement and "
+            "private-member access (-fno-access-control).",
 }
 
 MON = ["winner", "same", "visible", "ctor", "noconsume", "fullok", "nodrop", "nodup", "size", "dtor", "leak"]
